@@ -26,6 +26,13 @@ type colClient struct {
 	// pause: between segments the sender waits until the collector has consumed what was sent, lets one
 	// second pass, and waits again (a slow sender; a read deadline inside the collector would expire)
 	pause bool
+	// tmplID != 0: this client shares its observation domain with another one; its deliveries are the
+	// messages of that domain whose records carry this template id (the other client gets the rest)
+	tmplID uint16
+	// waitClosed >= 0 (with hasWait): the last segment is written only once the collector has closed the
+	// connection of that other client
+	hasWait    bool
+	waitClosed int
 	// for tcp: the stream may end mid-message (abrupt close); messages then lists only complete ones + the bad/partial tail is not expected
 }
 
@@ -108,6 +115,11 @@ func colScenario(name string, clients []colClient, o colOpts) *vsched.Scenario {
 					fc.Peer().SegmentReads = true
 				}
 				for si, s := range clients[i].segments {
+					if clients[i].hasWait && si == len(clients[i].segments)-1 {
+						j := clients[i].waitClosed
+						vsched.WaitUntil("the collector closed the other connection", func() bool { return conns[j] != nil && conns[j].PeerClosed() })
+						vsched.Quiesce()
+					}
 					if clients[i].pause && si > 0 {
 						vsched.Quiesce()
 						vsched.Advance(time.Second)
@@ -134,7 +146,19 @@ func colScenario(name string, clients []colClient, o colOpts) *vsched.Scenario {
 		vsched.Quiesce()
 		// ---- oracle ----
 		byDomain := map[uint32][]*entities.Message{}
+		byTmpl := map[[2]uint32][]*entities.Message{}
+		split := map[[2]uint32]bool{}
+		for _, c := range clients {
+			if c.tmplID != 0 {
+				split[[2]uint32{c.domain, uint32(c.tmplID)}] = true
+			}
+		}
 		for _, m := range delivered {
+			if rs := m.GetSet().GetRecords(); len(rs) > 0 && split[[2]uint32{m.GetObsDomainID(), uint32(rs[0].GetTemplateID())}] {
+				k := [2]uint32{m.GetObsDomainID(), uint32(rs[0].GetTemplateID())}
+				byTmpl[k] = append(byTmpl[k], m)
+				continue
+			}
 			byDomain[m.GetObsDomainID()] = append(byDomain[m.GetObsDomainID()], m)
 		}
 		var obs []string
@@ -147,6 +171,9 @@ func colScenario(name string, clients []colClient, o colOpts) *vsched.Scenario {
 			}
 			exp, hadBad := colExpected(c, o.proto)
 			got := byDomain[c.domain]
+			if c.tmplID != 0 {
+				got = byTmpl[[2]uint32{c.domain, uint32(c.tmplID)}]
+			}
 			if len(got) > len(exp) {
 				vsched.Fail("extra-delivery", "client %d (domain %d): %d messages delivered, the stream contains only %d decodable ones before the first undecodable message", i, c.domain, len(got), len(exp))
 			}
@@ -224,9 +251,11 @@ var (
 	colTA = []refcodec.FieldSpec{{ID: 7, Len: 2}, {ID: 4, Len: 1}, {ID: 82, Len: 65535}, {ID: 313, Len: 65535}}
 )
 
-func colStream(domain uint32, ndata int) [][]byte {
+func colStream(domain uint32, ndata int) [][]byte { return colStreamT(domain, 256, ndata) }
+
+func colStreamT(domain uint32, tid uint16, ndata int) [][]byte {
 	h := refcodec.Header{ExportTime: 1000, Seq: 0, Domain: domain}
-	t := refcodec.Template{ID: 256, Fields: colTA}
+	t := refcodec.Template{ID: tid, Fields: colTA}
 	msgs := [][]byte{refcodec.TemplateMsg(h, t)}
 	for i := 0; i < ndata; i++ {
 		h.Seq = uint32(i + 1)
